@@ -812,6 +812,12 @@ def _violated(case):
     rebound = {v for v in bound if bound.count(v) > 1}
     if case.get("opt") and rebound:
         out.add("opt-rebinding")
+    if case.get("opt"):
+        # the same hash-consed Reduce twice under the optimizer: KF-shared-binder-unfold (C02/C05/C08) makes
+        # the *forward* value wrong — not this property's region, never folded
+        reds = [repr(e) for e in subterms(root) if e[0] in ("sum", "prod")]
+        if len(reds) != len(set(reds)):
+            out.add("shared-binder")
     # the same pure renaming of the same leaf under two different binders of one name: the two Subs
     # nodes have the same un-mangled eager value (renaming shares the data array) = the same tape key
     ren = [(e[1], tuple(e[2])) for e in subterms(root)
@@ -1370,8 +1376,8 @@ def correspond(ctx):
         dedicated(ctx, stream, m)
     ctx.assumptions.append("float64 arithmetic on small integers / dyadic rationals is exact; the log semiring, and (add,mul) terms containing a product-reduce (safediv = multiplication by a rounded reciprocal), are compared in linear space with rtol 1e-9; magnitudes beyond 2**50 with rtol 1e-12")
     ctx.assumptions.append("with apply_optimizer the leaves are the tensors of the optimizer's output (its unfold pass evaluates Subs(Tensor) eagerly, outside the tape); the output is re-read into the model's syntax modulo __BOUND suffixes exactly as AdjointTape.adjoint un-mangles names")
-    ctx.assumptions.append("adjoint_sound_partial covers every node kind except Cat (tied by correspondence only: the driver's run-time echo `marginal = deriv` also runs on the Cat cases); the proved sweep is tree-shaped — the tape's DAG sharing and its keying of adjoint_values by un-mangled eager values are exercised by correspondence only (dedicated streams tape-key-collision, binder-free-clash, opt-rebinding)")
-    ctx.assumptions.append("clean-stream side conditions beyond Lean's `Good` (implementation-specific, each with its dedicated stream or owner): no diagonal substitutions (Tensor.eager_subs, C04), Cat with part_name == name, with the optimizer every variable bound once")
+    ctx.assumptions.append("adjoint_sound covers every node kind of the model (direct / Subs / Cat leaves, ⊕, ⊗, sum- and product-reduce); the proved sweep is tree-shaped — the tape's DAG sharing and its keying of adjoint_values by un-mangled eager values are exercised by correspondence only (aliasing block; dedicated streams tape-key-collision, binder-free-clash, opt-rebinding)")
+    ctx.assumptions.append("clean-stream side conditions beyond Lean's `Good` (implementation-specific, each with its dedicated stream or owner): Cat with part_name == name, with the optimizer every variable bound once and no repeated identical Reduce (KF-shared-binder-unfold), no pure renaming onto a surviving axis of the same leaf (KF-adjoint-scatter-number-shortcut), no root input used as a substitution value (funsor's renaming convention, test_adjoint_subs_tensor_rename)")
     ctx.assumptions.append("root inputs (free variables) are treated as batch variables: the returned adjoint is compared after summing it over the root inputs the leaf lacks")
 
 
